@@ -87,6 +87,9 @@ def fresh_mutable(v) -> bool:
     return isinstance(v, ast.Call) and isinstance(v.func, ast.Name) and v.func.id in _MUT_CTORS
 
 
+from ..index import aug_value
+
+
 def def_value(node, name):
     """Value bound to plain name `name` by CFG node `node` (None: opaque binding)."""
     a = node.ast
@@ -107,6 +110,10 @@ def def_value(node, name):
                             return ast.Subscript(value=a.value, slice=ast.Constant(value=i), ctx=ast.Load())
     if isinstance(a, ast.AnnAssign) and isinstance(a.target, ast.Name) and a.target.id == name:
         return a.value
+    if isinstance(a, ast.AugAssign) and isinstance(a.target, ast.Name) and a.target.id == name \
+            and isinstance(a.op, ast.Sub):
+        # `x -= E` stores `x - E` (the engine's canonical form of `x = x - E`)
+        return aug_value(a)
     return None
 
 
